@@ -310,9 +310,49 @@ def _ip_text(c):
 
 
 def context_of(trace_rows, line_no, script):
-    """the file text and the rejected line, for the replay file"""
+    """the file text and the rejected line, for the replay file; `rerun` holds the script rows (file + event, and for a
+    paired comparison the first file and its event) with which `replay_rows` re-executes the case"""
     e = trace_rows[line_no - 1]
     fid = e.get("file")
     if e["ev"] == "file":
         fid = e["id"]
-    return {"data_file": script.files.get(fid, ""), "event": e}
+    rerun = []
+    frow = next((r for r in script.rows if r["ev"] == "file" and r["id"] == fid), None)
+    if frow is not None and frow.get("keep"):
+        # paired comparison: the memo comes from the preceding file that does not keep
+        idx = script.rows.index(frow)
+        j = idx - 1
+        while j >= 0 and not (script.rows[j]["ev"] == "file" and not script.rows[j].get("keep")):
+            j -= 1
+        if j >= 0:
+            rerun.append(script.rows[j])
+            rerun += [r for r in script.rows[j + 1:idx] if r["ev"] != "file" and r.get("qid") == e.get("qid")][:1]
+    if frow is not None:
+        rerun.append(frow)
+        if e["ev"] != "file":
+            idx = script.rows.index(frow)
+            rerun += [r for r in script.rows[idx + 1:] if r["ev"] == e["ev"] and r.get("qid") == e.get("qid") and r.get("file") == fid][:1]
+    return {"data_file": script.files.get(fid, ""), "event": e, "rerun": rerun}
+
+
+def replay_rows(replay_path, backends="cdb,cdbsep,v1,v2"):
+    """re-execute the case of a replay file on the current /repo and let TLC judge it again; returns the rejects"""
+    d = json.load(open(replay_path))
+    rows = d["replay"].get("rerun") or []
+    if not rows:
+        print("this replay file carries no re-executable rows")
+        return None
+    os.makedirs(vlib.OUT, exist_ok=True)
+    inp = os.path.join(vlib.OUT, "replay-in.ndjson")
+    out = os.path.join(vlib.OUT, "replay-trace.ndjson")
+    vlib.write_ndjson(inp, rows)
+    vlib.build_harness()
+    vlib.run_vh(["sem", "-in", inp, "-out", out, "-backends", backends])
+    res = vlib.tv("ResolveTrace", out)
+    trows = [json.loads(x) for x in open(out)]
+    for rej in res["rejects"]:
+        e = trows[rej[0] - 1]
+        print("REJECTED again:", rej[1:], show_q(e["q"]) if e["ev"] == "q" else json.dumps(e.get("q")))
+        if e["ev"] == "q" and rej[1] in e["r"]:
+            print("   ", show_resp(e["r"][rej[1]]))
+    return res["rejects"]
